@@ -331,9 +331,10 @@ class GPTNeoXKFACPreconditioner(BaseKFACPreconditioner):
 
         for found_name, layer_state_dict in layers.items():
             for name, layer in self._layers.values():
+                if found_name != name:
+                    continue
                 if (
-                    found_name == name
-                    and cast(
+                    cast(
                         GPTNeoXAssignment,
                         self._assignment,
                     ).factor_worker(name, 'A')
@@ -346,6 +347,13 @@ class GPTNeoXKFACPreconditioner(BaseKFACPreconditioner):
                     if compute_inverses:
                         layer.compute_a_inv(damping=self.damping)
                         layer.compute_g_inv(damping=self.damping)
+                else:
+                    layer.load_state_dict(
+                        self._replicated_factor_state(
+                            layer,
+                            layer_state_dict,
+                        ),
+                    )
 
         torch.distributed.barrier()
 
@@ -423,6 +431,33 @@ class GPTNeoXKFACPreconditioner(BaseKFACPreconditioner):
                     if compute_inverses:
                         layer.compute_a_inv(damping=self.damping)
                         layer.compute_g_inv(damping=self.damping)
+            else:
+                filepath = os.path.join(self.factor_checkpoint_dir, name)
+                if os.path.exists(filepath):
+                    state_dict = torch.load(filepath)
+                    layer.load_state_dict(
+                        self._replicated_factor_state(layer, state_dict),
+                    )
+
+    @staticmethod
+    def _replicated_factor_state(
+        layer: KFACBaseLayer,
+        layer_state_dict: dict[str, Any],
+    ) -> dict[str, Any]:
+        """Return the part of a layer state that every rank must restore.
+
+        The factor computed from the unsharded side of a layer (A for output
+        parallelism, G for input parallelism) is held and averaged by every
+        rank of the pipeline stage, not only by the factor worker, so it has
+        to be restored on all of them. The other factor lives only on the
+        factor workers.
+        """
+        assert isinstance(layer, GPTNeoXKFACEigenLayer)
+        replicated = 'A' if layer.parallelism == 'output' else 'G'
+        return {
+            key: (layer_state_dict[key] if key == replicated else None)
+            for key in ('A', 'G')
+        }
 
     def save_factors_to_dir(self) -> None:
         """Save factors to `factor_checkpoint_dir`.
